@@ -25,7 +25,8 @@ print('flags clean: records', len(fr), 'bad', len(bad), 'errors', len(err))
 fr2 = copy.deepcopy(fr)
 k = [i for i, x in enumerate(fr2) if x['via'] == 'param' and x['status'] == 'ok' and x['out']][0]
 fr2[k]['out'] = fr2[k]['out'] + [120]
-k2 = [i for i, x in enumerate(fr2) if x['via'] == 'param' and x['status'] == 'ok'][-1]
+k2 = [i for i, x in enumerate(fr2) if x['via'] == 'param' and x['status'] == 'ok' and i != k
+      and not any(tok[0] == 'r' for side in ('def', 'usr') for v in x[side].values() for tok in v['v'])][-1]
 fr2[k2]['status'] = 'diagnosed'; fr2[k2]['out'] = []
 bad2, summ, err, st = flagscheck.Validate(fr2, 'c10corruptf', nshards=1)
 print('flags corrupted: bad', {i: v['why'] for i, v in bad2.items() if i not in bad}, 'errors', len(err))
